@@ -219,6 +219,8 @@ def generate(seed, tier):
         tv = eqncases.ensure_cycle_var(block, rng)
         eqncases.wrap_function(block, rng, 'tick', target=tv)
         knobs['tick_var'] = tv
+    if S['swarm'].random() < 0.08 and case['expect']['misuse'] is None:
+        knobs['maxtime_attr_late'] = S['swarm'].randint(0, case['expect']['T'] + 1)
     return case
 
 
@@ -235,6 +237,8 @@ def execute(case):
     src = 'attr' if case['knobs'].get('maxtime_attr') is not None else \
         ('line' if case['block'].get('maxtime') is not None else 'none')
     st['horizon_source'] = {src: 1}
+    if case['knobs'].get('maxtime_attr_late') is not None:
+        st.setdefault('probes', {})['solver_horizon_touched_after_parse'] = 1
     sig = core.digest([eqncases.case_sig(case, rec), src, misuse])
     nontrivial = (rec['outcome'] == 'ok' and len(rec['series']) > 1) or bool(misuse)
     return {'violations': viol, 'stats': st, 'sig': sig, 'digest': eqn.series_digest(rec),
